@@ -34,7 +34,7 @@ def run(ctx, replay):
         vlib.replay_main(ctx, replay, "c17", "Trace_PluginSource")
         return {}, ASSUMPTIONS
     thorough = ctx.tier == "thorough"
-    names = '{"docker", "my.plug_in-2", "ORG", "x", "github.com", "docker-buildkite-plugin", "thing.git", ".", ".."}' if thorough else '{"docker", "my.plug_in-2", "github.com", "docker-buildkite-plugin", "thing.git", ".", ".."}'
+    names = '{"docker", "my.plug_in-2", "ORG", "x", "github.com", "docker-buildkite-plugin", "thing.git", ".", "..", "Buildkite-Plugins"}' if thorough else '{"docker", "my.plug_in-2", "github.com", "docker-buildkite-plugin", "thing.git", ".", "..", "Buildkite-Plugins"}'
     a = ctx.tlc_model("MC_PluginSource", None, cfg_text=CFG % (names, 4 if thorough else 3), label="MC_PluginSource grammar",
                       workers=8, timeout=1200)
     cases = vlib.export_cases(a)
@@ -51,7 +51,7 @@ def run(ctx, replay):
         "samples": [s for sm in sums + s2 for s in sm.get("samples", [])][:5],
         "evaluations": n,
         "distinct_nontrivial": sum(s.get("rewritten", 0) for s in sums + s2),
-        "rule": "grammar: 17 leading forms x 1..MaxSegs path segments from the name pool (incl. a name ending in .git and one carrying the suffix) x "
+        "rule": "grammar: 19 leading forms (a doubled leading slash and a UNC-style `\\\\` among the paths) x 1..MaxSegs path segments from the name pool (incl. a name ending in .git, one carrying the suffix, and an organisation that differs from the default one in letter case only) x "
                 "0..2 ref segments x trailing separator where the source is left as written (TLC, exhaustive) plus seeded "
                 "random names/refs over the full documented alphabet; non-trivial = sources that canonicalisation rewrites (counted by the driver)",
         "exhaustive": True,
